@@ -15,6 +15,12 @@
 (*   Import             import of the written file + SFCModel()                               *)
 (*   RunStep(r)         one RunOneStep of the generated module; r = abstract residual flag    *)
 (*                      ("the values appended in this step satisfy the block's equations")    *)
+(*   Regenerate         main(<another file>) called again on the SAME generator object: the   *)
+(*                      lists it holds persist - in particular the Exogenous list to which    *)
+(*                      GenerateEquations appended the step index k - and GenerateEquations / *)
+(*                      GenerateFile / Import / RunStep follow again (at most MaxGenerations  *)
+(*                      modules per generator).  Every invariant is stated on the module of   *)
+(*                      the current generation, so it must hold for each module written.      *)
 (*                                                                                            *)
 (* Only NAMES are modelled (which names a section binds, which names an equation reads,       *)
 (* which series a pack line indexes and where); numbers live in the replay driver.            *)
@@ -35,6 +41,7 @@ CONSTANTS
     Blocks,               \* set of blocks
     MathNames,            \* names the generated module gets from  "from math import *"
     ResidChoices,         \* values RunStep may take for the residual flag ({TRUE} in the bounded instance)
+    MaxGenerations,       \* how many modules one generator object may write (main() called that often)
     AsFound_KUndefined    \* TRUE: the pinned code - nothing in the generated module binds k
 
 Range(s) == { s[i] : i \in DOMAIN s }
@@ -55,7 +62,9 @@ ParseOp(b) ==
 
 (* GenerateEquations.  Required behaviour (AsFound_KUndefined = FALSE): when an equation reads *)
 (* the step index k and no list defines it, k is supplied as an exogenous series 0..MaxTime    *)
-(* (what EquationSolver.SetInitialConditions does in process).                                 *)
+(* (what EquationSolver.SetInitialConditions does in process).  The series is appended to the  *)
+(* generator's OWN Exogenous list (GenEqOp(p).exos becomes p.exos), so the test "no list       *)
+(* defines it" is what keeps a second generation from adding it again.                         *)
 DefinedNames(p) == Range(NamesOf(p.endo)) \cup Range(NamesOf(p.lagged)) \cup Range(NamesOf(p.exos))
 ReadsK(p) == \E i \in DOMAIN p.endo : "k" \in Range(p.endo[i].reads)
 
@@ -130,13 +139,14 @@ RunStepOp(f, m, r) ==
 
 ----------------------------------------------------------------------------
 VARIABLES phase,    \* "init" | "parsed" | "equations" | "file" | "imported" | "running" | "done"
+          ngen,     \* number of modules this generator object has written
           blk,      \* the block given to the generator (history)
           parser,   \* the parser lists held by the generator
           gen,      \* AllVariables / NonLagged / EquationList (and the Exogenous list after GenerateEquations)
           file,     \* name sets of the sections of the written module
           mod       \* step state of the imported module
 
-vars == << phase, blk, parser, gen, file, mod >>
+vars == << phase, ngen, blk, parser, gen, file, mod >>
 
 NoBlock  == [endo |-> << >>, lagged |-> << >>, exos |-> << >>, ics |-> << >>, maxTime |-> 0, foundT |-> FALSE]
 NoParser == [endo |-> << >>, lagged |-> << >>, exos |-> << >>, ics |-> << >>, maxTime |-> 0]
@@ -144,7 +154,7 @@ NoGen    == [exos |-> << >>, all |-> << >>, nonLagged |-> << >>, eqReads |-> << 
 NoFile   == [decl |-> << >>, pack |-> << >>, orig |-> << >>, iterUnpack |-> << >>, iterBinds |-> << >>,
              iterReads |-> << >>, unpack |-> << >>, varList |-> << >>, header |-> << >>]
 
-Init == /\ phase = "init" /\ blk = NoBlock /\ parser = NoParser /\ gen = NoGen /\ file = NoFile
+Init == /\ phase = "init" /\ ngen = 0 /\ blk = NoBlock /\ parser = NoParser /\ gen = NoGen /\ file = NoFile
         /\ mod = NoModule
 
 ParseBlock(b) ==
@@ -152,37 +162,49 @@ ParseBlock(b) ==
     /\ phase' = "parsed"
     /\ blk' = b
     /\ parser' = ParseOp(b)
-    /\ UNCHANGED << gen, file, mod >>
+    /\ UNCHANGED << ngen, gen, file, mod >>
 
 GenerateEquations ==
     /\ phase = "parsed"
     /\ phase' = "equations"
     /\ gen' = GenEqOp(parser)
-    /\ UNCHANGED << blk, parser, file, mod >>
+    /\ parser' = [parser EXCEPT !.exos = gen'.exos]      \* self.Exogenous is the generator's own list
+    /\ UNCHANGED << ngen, blk, file, mod >>
 
 GenerateFile ==
     /\ phase = "equations"
     /\ phase' = "file"
     /\ file' = GenFileOp(parser, gen)
+    /\ ngen' = ngen + 1
     /\ UNCHANGED << blk, parser, gen, mod >>
 
 Import ==
     /\ phase = "file"
     /\ mod' = ImportOp(file)
     /\ phase' = IF parser.maxTime = 0 THEN "done" ELSE "imported"
-    /\ UNCHANGED << blk, parser, gen, file >>
+    /\ UNCHANGED << ngen, blk, parser, gen, file >>
 
 RunStep(r) ==
     /\ phase \in {"imported", "running"}
     /\ mod' = RunStepOp(file, mod, r)
     /\ phase' = IF mod'.status # "ok" \/ mod'.STEP >= parser.maxTime THEN "done" ELSE "running"
-    /\ UNCHANGED << blk, parser, gen, file >>
+    /\ UNCHANGED << ngen, blk, parser, gen, file >>
+
+(* main() once more on the same object: the parser lists (with what GenerateEquations did to *)
+(* them) stay, everything derived is recomputed, a fresh module is written and imported      *)
+Regenerate ==
+    /\ phase = "done"
+    /\ ngen < MaxGenerations
+    /\ phase' = "parsed"
+    /\ gen' = NoGen /\ file' = NoFile /\ mod' = NoModule
+    /\ UNCHANGED << ngen, blk, parser >>
 
 Next == \/ (phase = "init" /\ \E b \in Blocks : ParseBlock(b))
         \/ GenerateEquations
         \/ GenerateFile
         \/ Import
         \/ \E r \in ResidChoices : RunStep(r)
+        \/ Regenerate
 
 Spec == Init /\ [][Next]_vars
 
@@ -199,6 +221,7 @@ NonLaggedOfBlock(p) == Range(NamesOf(p.endo)) \cup Range(NamesOf(p.exos))
 HeaderOk(h, names) ==
     /\ ("t" \in names => (Len(h) >= 1 /\ h[1] = "t"))
     /\ \A nm \in names : Count(h, nm) = 1
+    /\ \A i \in DOMAIN h : Count(h, h[i]) = 1        \* whatever else is listed (the step index) is listed once
 C20_HeaderTimeFirst == HasFile => HeaderOk(file.header, NonLaggedOfBlock(parser))
 
 (* after a step every endogenous series has one more value; lags were read at STEP-1, exogenous at STEP *)
@@ -218,7 +241,8 @@ C20_StepSatisfiesEquations == Stepped => SatisfiesOf(mod)
 (* the module of a parser-accepted block imports and runs: no step ends in an exception *)
 C20_RunsClean == mod.status \in {"none", "ok"}
 
-TypeOK == /\ phase \in {"init", "parsed", "equations", "file", "imported", "running", "done"}
+TypeOK == /\ ngen \in 0..MaxGenerations
+          /\ phase \in {"init", "parsed", "equations", "file", "imported", "running", "done"}
           /\ mod.STEP <= parser.maxTime
           /\ mod.status \in {"none", "ok", "NameError", "IndexError"}
 =============================================================================
